@@ -126,6 +126,18 @@ def check(facts):
             somes, nexts = [], []
             problem = None
             end_roots = set()
+            # `*next_start = if empty { next_right_pos(end) } else { Some(end) }`: one store of a value with two definitions is the
+            # same as two stores, one per definition (each located where the value is defined)
+            expanded = []
+            for st in between:
+                if st[2] != "call" and st[3]["rv"]["k"] == "use" and st[3]["rv"]["op"]["k"] in ("copy", "move") and not st[3]["rv"]["op"]["pl"]["p"]:
+                    dl = b.defs().get(st[3]["rv"]["op"]["pl"]["l"], [])
+                    if len(dl) > 1 and all(att in b.dom()[d_[0]] for d_ in dl):
+                        for d_ in dl:
+                            expanded.append((d_[0], d_[1], d_[2], d_[3]))
+                        continue
+                expanded.append(st)
+            between = expanded
             for st in between:
                 kind = None
                 if st[2] == "call":
@@ -165,6 +177,12 @@ def check(facts):
                         t = b.blocks[d]["t"]
                         if t["k"] == "switch" and t["discr"]["k"] in ("copy", "move") and att in b.dom()[d]:
                             df = b.single_def(t["discr"]["pl"]["l"])
+                            for _ in range(4):   # through `let matched_empty = end == pos;`
+                                if df and df[2] == "assign" and df[3]["rv"]["k"] == "use" and df[3]["rv"]["op"].get("k") in ("copy", "move") \
+                                        and not df[3]["rv"]["op"]["pl"]["p"]:
+                                    df = b.single_def(df[3]["rv"]["op"]["pl"]["l"])
+                                else:
+                                    break
                             if df and df[2] == "call" and (df[3].get("callee") or "").endswith(("PartialEq::ne", "PartialEq::eq")):
                                 sel = (d, df[3], t)
                 if sel is None:
